@@ -360,7 +360,24 @@ class Item:
 
     def op_drop(self, anchor):
         a, b, body = self.sub_range(anchor)
-        self.add(self.toks[a].start, self.toks[b].end, "", "R4 drop")
+        start = self.toks[a].start
+        # the item's doc comments and attributes go with it
+        while True:
+            ls = self.src.rfind("\n", 0, start - 1) if start > 0 else -1
+            prev_line_start = self.src.rfind("\n", 0, ls) + 1 if ls > 0 else 0
+            line_start = self.src.rfind("\n", 0, start) + 1
+            if self.src[line_start:start].strip():
+                break
+            prev = self.src[prev_line_start:line_start].strip()
+            if prev.startswith("//") or prev.startswith("#["):
+                start = prev_line_start
+                if start <= self.start:
+                    break
+            else:
+                break
+        end = self.toks[b].end
+        self.edits = [e for e in self.edits if not (start <= e.start and e.end <= end)]
+        self.add(start, end, "", "R4 drop")
 
     def op_replace(self, sub, old, new):
         a, b, body = self.sub_range(sub)
